@@ -822,8 +822,12 @@ fn ops(m: &Model, ctx: &mut Ctx) {
                 }
             }
             let want: Set = groups.iter().fold(Set::new(), |a, b| u(&a, b));
-            if groups.iter().any(|g| g.is_empty()) {
-                return; // an empty intersection: an error is acceptable
+            // an intersection without a common character contributes nothing to the union it stands in; the constraint as a
+            // whole is then the union of the other parts (an error — a warning for the definition — is acceptable too, a
+            // different set is not). A constraint that permits no character at all is left out.
+            let has_empty = groups.iter().any(|g| g.is_empty());
+            if want.is_empty() {
+                return;
             }
             n += 1;
             let text = format!("FROM ({})", idx.iter().enumerate().map(|(j, k)| if j == 0 { names[*k].to_string() } else { format!("{} {}", ws[j - 1].0, names[*k]) }).collect::<Vec<_>>().join(" "));
@@ -858,6 +862,7 @@ fn ops(m: &Model, ctx: &mut Ctx) {
                             if missing.is_empty() { String::new() } else { format!(": permitted characters {:?} are missing from the annotation", missing) }, if extra.is_empty() { String::new() } else { format!(": {:?} are not permitted", extra) }));
                     reported.insert(shape);
                 }
+                Err(_) if has_empty => {}
                 Err(e) => {
                     ctx.fail_closed("C15.prec", &format!("[{}]: {}", text, e));
                     reported.insert(shape);
